@@ -6,6 +6,7 @@ mod gen;
 mod json;
 mod rng;
 mod sexpr;
+mod store_ops;
 mod suites;
 mod walk;
 
